@@ -604,7 +604,7 @@ def _run(ctx, pid='C08'):
     ctx.note('t_fixed', round(time.time() - t0, 1))
     # generated messages
     batch = []
-    total = ctx.scale(900, 5000)
+    total = ctx.scale(750, 5000)
     for i in range(total):
         m = H.gen_message(rng)
         for tag, data, eof in variants(rng, m, thorough):
@@ -628,7 +628,7 @@ def _run(ctx, pid='C08'):
     nseq = ctx.scale(120, 800)
     seqs = []
     for i in range(nseq):
-        opts = H.OPTS[i % 4] if i % 2 else (True, False)      # half default, the rest spread over the other three
+        opts = H.OPTS[1 + (i // 2) % 3] if i % 2 else (True, False)      # half default, the rest spread over the other three
         seqs.append((gen_sequence(srng, opts), opts))
     stream_session(ctx, seqs)
     ctx.note('read_sizes', 'the model replays the logged size of every Connection.read; calls are compared one by one')
